@@ -228,13 +228,13 @@ def run(ctx):
                 configs.append({"preset": preset, "header": 0, "fields": fields, "checks": checks})
     for config in configs:
         file_based = config["preset"] in ("ods", "excel")
-        depth = (2 if file_based else 3) if quick else (3 if file_based else 5)
+        depth = (2 if file_based else 4) if quick else (4 if file_based else 6)
         items.append((config, depth))
     items.sort(key=lambda item: -(item[1] * (4 if item[0]["preset"] in ("ods", "excel") else 1)))
     ctx.pmap(MOD, "explore", items, label="C06 modes")
     all_faults = fault_cases(ctx.tier)
     ctx.pmap(MOD, "faults", engine.chunks(all_faults, 25), label="C06 faults")
-    ctx.bound = {"mode comparison": "%d CID/format configurations, tables up to %s rows (BFS with merging)" % (len(items), "3 (files 2)" if quick else "5 (files 3)"),
+    ctx.bound = {"mode comparison": "%d CID/format configurations, tables up to %s rows (BFS with merging)" % (len(items), "4 (files 2)" if quick else "6 (files 4)"),
                  "container faults": "%d faults: undecodable byte (3 encodings) / unterminated quote / record cut short by 1..6 at every row; ods and xlsx archives truncated at every %s byte, central directory removed" % (len(all_faults), "64th" if quick else "single")}
     ctx.rule = ("relational (differential) oracle: the three modes of cutplace.rows and Reader counters are compared with each other on every explored table; "
                 "fault cases must end with DataFormatError in every mode; non-trivial = table with at least one rejected row, or a fault case")
